@@ -64,6 +64,7 @@ type frame struct {
 	arrBoxed map[types.Object]bool // array locals living in a slice-heap row
 	loopIdx  []*Term
 	defers   []*ast.DeferStmt
+	tailRet  *ast.ReturnStmt
 	lits     map[string]*ast.FuncLit
 	litEnv   map[string]*State
 }
@@ -191,7 +192,24 @@ func (c *VC) unsupportedf(pos token.Pos, format string, args ...any) {
 // ---------------------------------------------------------------- statements
 
 func (c *VC) execBlock(st *State, stmts []ast.Stmt) {
-	for _, s := range stmts {
+	for i, s := range stmts {
+		// tail duplication: a switch/if directly followed by the block's final return is
+		// executed with the return duplicated into every branch (no merge of the branch states),
+		// which keeps per-path formulas small (e.g. the 10-way switch of AppendVarint).
+		if !st.dead() && i == len(stmts)-2 {
+			if ret, ok := stmts[i+1].(*ast.ReturnStmt); ok {
+				switch s.(type) {
+				case *ast.SwitchStmt, *ast.IfStmt:
+					c.cur().tailRet = ret
+					c.exec(st, s)
+					c.cur().tailRet = nil
+					if !st.dead() {
+						c.exec(st, ret)
+					}
+					return
+				}
+			}
+		}
 		if st.dead() {
 			// a labeled statement may revive the state via pending gotos
 			if ls, ok := s.(*ast.LabeledStmt); ok {
@@ -254,6 +272,8 @@ func (c *VC) exec(st *State, s ast.Stmt) {
 			}
 		}
 	case *ast.IfStmt:
+		tail := c.cur().tailRet
+		c.cur().tailRet = nil
 		if s.Init != nil {
 			c.exec(st, s.Init)
 		}
@@ -263,8 +283,20 @@ func (c *VC) exec(st *State, s ast.Stmt) {
 		b := st.clone()
 		b.pc = mkAnd(st.pc, mkNot(cond))
 		c.execBlock(a, s.Body.List)
+		if tail != nil && !a.dead() {
+			c.exec(a, tail)
+		}
 		if s.Else != nil {
+			if _, isIf := s.Else.(*ast.IfStmt); isIf {
+				c.cur().tailRet = tail
+			}
 			c.exec(b, s.Else)
+			c.cur().tailRet = nil
+			if _, isIf := s.Else.(*ast.IfStmt); !isIf && tail != nil && !b.dead() {
+				c.exec(b, tail)
+			}
+		} else if tail != nil && !b.dead() {
+			c.exec(b, tail)
 		}
 		st.set(c.merge(a, b))
 	case *ast.ForStmt:
@@ -1186,6 +1218,8 @@ func (c *VC) execRangeString(st *State, s *ast.RangeStmt, tg *target, ld *LoopDi
 
 func (c *VC) execSwitch(st *State, s *ast.SwitchStmt, label string) {
 	fr := c.cur()
+	tail := fr.tailRet
+	fr.tailRet = nil
 	if s.Init != nil {
 		c.exec(st, s.Init)
 	}
@@ -1252,6 +1286,9 @@ func (c *VC) execSwitch(st *State, s *ast.SwitchStmt, label string) {
 				fall = b
 				continue
 			}
+		}
+		if tail != nil && !b.dead() {
+			c.exec(b, tail)
 		}
 		ends = append(ends, b)
 	}
